@@ -142,3 +142,72 @@ Definition holds_lagr (c : lcase) : bool :=
              match l_poly c with Ok l => wfb l && nonnegb l | Raise _ => false end &&
              match l_fv c, l_pv c with Ok a, Ok b => Qc_eqb a b | _, _ => false end)
   end.
+
+(* ---------------------------------------------------------------- lagh: histories of lagrange calls *)
+(* 2-4 calls in one process sharing the abscissa VALUES (in different numeric types, orders,
+   with different ordinates): every call must equal the per-call model / satisfy the text *)
+Record lhcase := LH { lh_calls : list lcase }.
+Definition corr_lagh (c : lhcase) : bool := forallb corr_lagr (lh_calls c).
+Definition holds_lagh (c : lhcase) : bool := forallb holds_lagr (lh_calls c).
+
+(* ---------------------------------------------------------------- hist: histories on live Poly objects *)
+(* after every step: the exception flag / set size, the terms behind every variable, the full
+   == and != matrices, and for every pair of already-hashed objects whether the hashes agree
+   (o_heq is reported true for a pair that is not hashed on both sides) *)
+Record hobs := HO { o_flag : res Z; o_terms : list poly;
+                    o_eq : list (list bool); o_ne : list (list bool); o_heq : list (list bool) }.
+Record hcase := HC { hc_ops : list hop; hc_obs : list hobs }.
+Definition matrix (f : poly -> poly -> bool) (l : list poly) : list (list bool) :=
+  map (fun p => map (fun q => f p q) l) l.
+Definition bmat_eqb : list (list bool) -> list (list bool) -> bool := list_eqb (list_eqb Bool.eqb).
+Fixpoint corr_steps (s : hstate) (ops : list hop) (obs : list hobs) : bool :=
+  match ops, obs with
+  | [], [] => true
+  | op :: r, o :: ro =>
+      let '(s', f) := hstep s op in
+      res_eqb Z.eqb (o_flag o) f && list_eqb poly_eqb (o_terms o) (view s') &&
+      bmat_eqb (o_eq o) (matrix peq (view s')) && bmat_eqb (o_ne o) (matrix pne (view s')) &&
+      corr_steps s' r ro
+  | _, _ => false
+  end.
+Definition corr_hist (c : hcase) : bool := corr_steps hinit (hc_ops c) (hc_obs c).
+
+Fixpoint distinct_count_s (l : list poly) : nat :=
+  match l with
+  | [] => O
+  | p :: r => if existsb (fun q => sameb q p) r then distinct_count_s r else S (distinct_count_s r)
+  end.
+Fixpoint bmat_impl (a b : list (list bool)) : bool :=
+  match a, b with
+  | [], [] => true
+  | ra :: a', rb :: b' =>
+      (fix row (x y : list bool) : bool :=
+         match x, y with
+         | [], [] => true
+         | u :: x', v :: y' => implb u v && row x' y'
+         | _, _ => false
+         end) ra rb && bmat_impl a' b'
+  | _, _ => false
+  end.
+(* what the text demands of every observation: no zero stored behind any variable, == is equality
+   of coefficient functions, != its negation, equal and hashed implies equal hashes, and a set
+   holds one member per ring element *)
+Definition holds_step (op : hop) (o : hobs) : bool :=
+  let ts := o_terms o in
+  forallb wfb ts &&
+  bmat_eqb (o_eq o) (matrix sameb ts) &&
+  bmat_eqb (o_ne o) (map (map negb) (o_eq o)) &&
+  bmat_impl (o_eq o) (o_heq o) &&
+  match op, o_flag o with
+  | HHash l, Ok n =>
+      Z.eqb n (Z.of_nat (distinct_count_s (flat_map (fun i => match nth_error ts i with Some p => [p] | None => [] end) l)))
+  | HHash _, Raise _ => false
+  | _, _ => true
+  end.
+Fixpoint holds_steps (ops : list hop) (obs : list hobs) : bool :=
+  match ops, obs with
+  | [], [] => true
+  | op :: r, o :: ro => holds_step op o && holds_steps r ro
+  | _, _ => false
+  end.
+Definition holds_hist (c : hcase) : bool := holds_steps (hc_ops c) (hc_obs c).
